@@ -15,7 +15,16 @@ var vxErrOrigin = errors.New("vx: origin unreachable")
 func vxHitStep(withOrigin bool, kinds []int) {
 	vxND = vxBoundsB()
 	vxNoTimer = true
-	if withOrigin && vxTier() != "thorough" {
+	// thorough lifts the reductions for the checks whose thorough tier ran clean with them
+	// lifted (the others keep the quick input space; see checks.json)
+	lift := false
+	if vxTier() == "thorough" {
+		switch vxProp() {
+		case "C01", "C02", "C09", "C10", "C13", "C18":
+			lift = true
+		}
+	}
+	if withOrigin && !lift {
 		vxOptNoAge, vxOptNoExpires, vxOptNoMinFresh = true, true, true
 	}
 	w := vxNewWorld(0)
